@@ -1302,8 +1302,10 @@ pub fn run_faults<C: OrdColl>(tr: &mut Trace, paths: &[(usize, Vec<POp>)], keys:
                     s.apply(&OOp::Del { k: *k }, 0);
                 }
                 s.apply(&OOp::Get { k: 1 }, 0);
-                // ... and emptied completely: it must say so, and take entries again
-                s.drain_and_refill();
+                // ... and, after a mutation, emptied completely: it must say so, and take entries again
+                if matches!(call, OOp::Ins { .. } | OOp::Del { .. }) {
+                    s.drain_and_refill();
+                }
                 if !a.unwound {
                     break;
                 }
@@ -1362,6 +1364,54 @@ pub fn run_ind<C: OrdColl>(tr: &mut Trace, states: &[Snap], handles: bool) {
         s.load_snap(snap, cap);
         s.apply(&OOp::Clear, 0);
         s.apply(&OOp::Empty, 0);
+    }
+}
+
+/// Fault enumeration from the start states of IndOrd.tla (every valid red-black tree up to a size):
+/// every look-up, handle query, removal and insertion with its j-th callback panicking, j = 1, 2, ..
+/// until the call completes; after each the stored keys are looked up and emptiness is asked.
+pub fn run_ind_faults<C: OrdColl>(tr: &mut Trace, states: &[Snap]) {
+    let mut s: OrdSession<C> = OrdSession::new(tr, 1, 0, 1);
+    for snap in states {
+        if s.tr.full() {
+            break;
+        }
+        if !s.load_snap(snap, 0) {
+            continue;
+        }
+        let stored: Vec<i32> = s.mine.iter().cloned().collect();
+        let top = stored.last().cloned().unwrap_or(0) + 1;
+        s.keys = top;
+        let mut calls: Vec<OOp> = vec![];
+        for p in 0..=top {
+            calls.push(OOp::Get { k: p });
+            if stored.contains(&p) {
+                calls.push(OOp::Del { k: p });
+                calls.push(OOp::Fil { p });
+            } else {
+                calls.push(OOp::FilBy { th: 2 * p });
+                if p >= 1 {
+                    calls.push(OOp::Ins { k: p, v: p * 1000 + 55 });
+                }
+            }
+        }
+        for call in &calls {
+            let mut j = 1u64;
+            loop {
+                if !s.load_snap(snap, 0) {
+                    break;
+                }
+                let a = s.apply(call, j);
+                for k in stored.iter().take(2) {
+                    s.apply(&OOp::Get { k: *k }, 0);
+                }
+                s.apply(&OOp::Empty, 0);
+                if !a.unwound || j > 120 {
+                    break;
+                }
+                j += 1;
+            }
+        }
     }
 }
 
